@@ -316,9 +316,8 @@ def mk_grid(m, kind):
         # a source that ships its own edge table in arbitrary order and orientation
         pairs = sorted({(min(a, b), max(a, b)) for f in m.faces for a, b in zip(f, f[1:] + f[:1])})
         pairs = [list(p) if i % 2 else [p[1], p[0]] for i, p in enumerate(pairs)]
-        k = len(pairs) // 3
-        pairs = pairs[k:] + pairs[:k]
-        pairs.reverse()
+        import random
+        random.Random(len(pairs)).shuffle(pairs)       # a generic permutation (not an involution)
         return ux.Grid.from_topology(np.array(lon), np.array(lat), t, fill_value=FILL,
                                      edge_node_connectivity=np.array(pairs, dtype=np.intp))
     if kind == "aux":
